@@ -256,6 +256,19 @@ def k1_scan(ctx, repo):
             f"K1 new unordered-collection site not in the model's site table: {s['file']}:{s['lines'][0]} "
             f"{s['function']}: {s['context']} {s['expression']}", {"stage": "K1 static scan", "new_site": s},
             found_input=False)
+    # which form of the two known-finding sites does the code have? (the model is run in the same form)
+    def form(f, fn, expr):
+        has_sorted = (f, fn, "sorted", expr) in counts
+        has_iter = (f, fn, "iter", expr) in counts
+        return has_sorted and not has_iter
+    ctx._forms = {
+        "dfs_sorted": form("client_generators/fragments.py", "FragmentsGenerator._get_sorted_fragments_names.visit",
+                           "dependencies_dict[name]"),
+        "imports_sorted": form("client_generators/result_types.py",
+                               "ResultTypesGenerator._add_enums_scalars_fragments_imports",
+                               "self._fragments_used_as_mixins"),
+    }
+    run.extra["model_forms"] = dict(ctx._forms)
     stale = [list(k) for k in table if k not in counts]
     run.extra["table_rows_not_in_code"] = stale
     run.extra["order_sensitive_rows_present"] = [list(k) for k, v in table.items() if v[1] and k in counts]
@@ -308,6 +321,9 @@ def build_cases(ctx) -> list[Case]:
     for i in range(n_fold):
         sc = c10_gen.make(500 + i + ctx.seed * 10007, ("casefold",))
         cases.append(Case(f"casefold{i}", sc, PLUGIN_SETS[(i * 2) % len(PLUGIN_SETS)], "casefold"))
+    for i, c in enumerate(cases):
+        if i % 3 == 1:   # pruned enums / inputs (the used-name lists come from several generators)
+            c.sc.config = {**c.sc.config, "include_all_enums": False, "include_all_inputs": False}
     for c in cases:
         r = random.Random(sum(map(ord, c.sid)) * 31 + ctx.seed)
         c.split_schema = c10_gen.split_document(c.sc.sdl, r)
@@ -380,7 +396,7 @@ def k1_probe(ctx, case: Case, seed: int, res: dict, files: dict[str, bytes]):
         g = gens[i] if i < len(gens) else {"defs": d["processed"], "exclude": []}
         mix = [[k, sorted(v)] for k, v in d["deps_iter"].items()]
         oc = [[k, lehmer(sorted(v), v)] for k, v in d["deps_iter"].items()]
-        cmds.append([Sym("fragorder"), False, g["defs"], mix, g["exclude"], oc])
+        cmds.append([Sym("fragorder"), ctx._forms["dfs_sorted"], g["defs"], mix, g["exclude"], oc])
         expect.append([d["processed"], d["result"]])
         what.append(("dfs", d))
         maxdeps = max([len(v) for v in d["deps_iter"].values()] or [0])
@@ -394,7 +410,7 @@ def k1_probe(ctx, case: Case, seed: int, res: dict, files: dict[str, bytes]):
     for m in probe.get("op_mixins") or []:
         if not m["iter"]:
             continue
-        cmds.append([Sym("opimports"), False, lehmer(sorted(m["iter"]), m["iter"]), sorted(m["iter"])])
+        cmds.append([Sym("opimports"), ctx._forms["imports_sorted"], lehmer(sorted(m["iter"]), m["iter"]), sorted(m["iter"])])
         expect.append(m)
         what.append(("imports", m))
     out = model.batch("C10", cmds) if cmds else []
@@ -540,6 +556,7 @@ def k3(ctx, scratch):
         run.dist("fragments_per_case", str(nfr // 4 * 4) + "+")
         run.dist("async_client", str(c.sc.config.get("async_client")))
         run.dist("custom_scalars", "yes" if c.sc.config.get("scalars") else "no")
+        run.dist("pruned_enums_inputs", str(c.sc.config.get("include_all_enums") is False))
     if True:
         results = {}   # (sid, variant) -> files
         reqmap = {}    # (sid, variant) -> (req, res)
